@@ -38,7 +38,7 @@ def run(tier, wd):
                                            "library": {"err": r.get("err"), "exits": r["exits"], "panic": r.get("panic"), "usage": r["usages"][:1], "errors": r["errors"][:1]}})
     # the outcome is a function of the declarations and the argument vector: an earlier Run on the same application object
     # (possible for commands that declare nothing) must not change it - in particular not the error policy of a sub command
-    t5 = len(trs) - 1
+    t5 = [i for i, t in enumerate(trs) if t["nodes"][0].get("bare")][0]
     again = [c for c, r in rows if c["ti"] == t5 and c["kind"] in ("reject", "run") and not r.get("skipped")]
     pres = [[["one"]], [["one", "deep"], ["two"]], [["one", "bogus"]]]
     extra = [(c, pre) for c in again for pre in pres]
